@@ -12,7 +12,23 @@ import traceback
 from .common import HarnessError, report
 
 
+def normalise_signals():
+    """The verdict must not depend on how the check was launched: a background job of a
+    non-interactive shell inherits SIGINT (and possibly others) as ignored, or a blocked signal
+    mask; ignored dispositions survive exec, so real labtech runs started by the checker would
+    never see Ctrl-C / terminate().  Establish what an interactive caller has."""
+    import signal
+    try:
+        signal.signal(signal.SIGINT, signal.default_int_handler)
+        for s in (signal.SIGTERM, signal.SIGCHLD, signal.SIGHUP, signal.SIGQUIT, signal.SIGUSR1, signal.SIGUSR2, signal.SIGALRM):
+            signal.signal(s, signal.SIG_DFL)
+        signal.pthread_sigmask(signal.SIG_SETMASK, set())
+    except (ValueError, OSError):
+        pass
+
+
 def main(argv=None) -> int:
+    normalise_signals()
     ap = argparse.ArgumentParser()
     ap.add_argument('prop')
     ap.add_argument('--tier', default=os.environ.get('VERIF_TIER') or 'quick', choices=['quick', 'thorough'])
